@@ -78,6 +78,8 @@ def _atoms():
         {"a": {"required": ["a"]}},
         {"a": {"const": 1}},
         {"a": True, "c": {"type": "null"}},
+        {"a": {"type": "number"}},
+        {"a": {"type": "object", "title": "Inner", "properties": {"x y": {"default": 1}, "n": {"type": "number"}}}},
     ):
         add("properties", {"properties": p}, "object")
     for p in (
@@ -104,6 +106,8 @@ def _atoms():
         {"a": True},
         {"a": ["b"], "b": ["a"]},
         {"a": {"properties": {"b": {"type": "integer"}}}},
+        {"a": ["b"], "c": ["a", "d"]},
+        {"a": {"required": ["z"]}, "b": ["c"]},
     ):
         add("dependencies", {"dependencies": d}, "object")
     # composition
